@@ -47,6 +47,7 @@ type desc struct {
 	Dly    int64   `json:"dly"`    // retry: fixed delay (units)
 	MaxD   int64   `json:"maxd"`   // retry: max duration (units)
 	Wait   int64   `json:"wait"`   // bulkhead: max wait time (units)
+	Dfn    *int64  `json:"dfn"`    // breaker: open delay its delay function asks for (units); absent or -1: none
 	Per    int64   `json:"per"`    // bursty rate limiter of the sequential model: period (units); 0 = one endless period
 	Ival   int64   `json:"ival"`   // smooth rate limiter: interval (units); 0 = the sequential model's bursty limiter
 	Delays []int64 `json:"delays"` // hedge: delay function = delays[Hedges() % len] (empty: fixed delay)
@@ -139,6 +140,9 @@ func projectErr(err error) term {
 		return leaf("nil")
 	}
 	var ex retrypolicy.ExceededError
+	if tp, ok := err.(*TP); ok && tp != nil {
+		return leaf("TP")
+	}
 	switch {
 	case err == error(errCoop):
 		return leaf("ECoop")
@@ -150,6 +154,8 @@ func projectErr(err error) term {
 		return leaf("E3")
 	case err == errFB:
 		return leaf("EFB")
+	case err == error(TV{7}):
+		return leaf("TV")
 	case err == circuitbreaker.ErrOpen:
 		return leaf("ErrOpen")
 	case err == bulkhead.ErrFull:
@@ -306,19 +312,20 @@ func (r *recorder) attempt(name string, layer int, a failsafe.ExecutionAttempt[s
 			// the library may change between two reads without logging anything; all of them only ever move one way, so
 			// two identical consecutive collects are a snapshot of one instant
 			att, exe, ret, hdg := stableCounters(a)
-			le := a.LastError()
+			le, first, retry := a.LastError(), a.IsFirstAttempt(), a.IsRetry()
 			for i := 0; i < 100; i++ {
 				att2, exe2, ret2, hdg2 := stableCounters(a)
-				le2 := a.LastError()
-				same := att2 == att && exe2 == exe && ret2 == ret && hdg2 == hdg && le2 == le
-				att, exe, ret, hdg, le = att2, exe2, ret2, hdg2, le2
+				le2, first2, retry2 := a.LastError(), a.IsFirstAttempt(), a.IsRetry()
+				same := att2 == att && exe2 == exe && ret2 == ret && hdg2 == hdg && le2 == le && first2 == first && retry2 == retry
+				att, exe, ret, hdg, le, first, retry = att2, exe2, ret2, hdg2, le2, first2, retry2
 				if same {
 					break
 				}
 			}
 			return M{"ev": name, "x": xOf(a.Context()), "L": layer, "att": att, "exe": exe, "ret": ret, "hdg": hdg,
 				"lr": resName(a.LastResult()), "le": projectErr(le), "st": int64(a.StartTime().Sub(r.t0) / r.unit), "el": int64(a.ElapsedTime() / r.unit),
-				"ast": int64(a.AttemptStartTime().Sub(r.t0) / r.unit), "ael": int64(a.ElapsedAttemptTime() / r.unit)}
+				"ast": int64(a.AttemptStartTime().Sub(r.t0) / r.unit), "ael": int64(a.ElapsedAttemptTime() / r.unit),
+				"first": first, "retry": retry, "ishedge": a.IsHedge()}
 		}, x)
 		return
 	}
@@ -461,7 +468,7 @@ func condErr(v string) error {
 }
 
 // applyStrConds registers handle/abort/cancel conditions through the real builder methods.
-func applyStrConds(cs []cond, onErrsV func(...error), onResult func(string), onIf func(func(string, error) bool)) {
+func applyStrConds(cs []cond, alt bool, onErrsV func(...error), onTypes func(...any), onResult func(string), onIf func(func(string, error) bool)) {
 	// all error registrations go through ONE variadic call, as users write HandleErrors(a, b) / AbortOnErrors(a, b)
 	var errs []error
 	for _, c := range cs {
@@ -472,9 +479,35 @@ func applyStrConds(cs []cond, onErrsV func(...error), onResult func(string), onI
 	if len(errs) > 0 {
 		onErrsV(errs...)
 	}
+	// ... and all error-type registrations through one HandleErrorTypes(A{}, &B{}) call
+	var types []any
+	for _, c := range cs {
+		if c.T == "types" {
+			// (altSpelling: the other documented spelling of the same target type, pointer instead of value and vice versa)
+			switch c.V {
+			case "TV":
+				if alt {
+					types = append(types, &TV{})
+				} else {
+					types = append(types, TV{})
+				}
+			case "TP":
+				if alt {
+					types = append(types, TP{})
+				} else {
+					types = append(types, &TP{})
+				}
+			default:
+				panic("unsupported error type " + c.V)
+			}
+		}
+	}
+	if len(types) > 0 {
+		onTypes(types...)
+	}
 	for _, c := range cs {
 		switch c.T {
-		case "errors":
+		case "errors", "types":
 		case "result":
 			onResult(mkString(c.V))
 		case "if":
@@ -496,6 +529,13 @@ func strIsFailure(cs []cond, r string, err error) bool {
 		case "errors":
 			errorsChecked = true
 			if err != nil && errors.Is(err, condErr(c.V)) {
+				return true
+			}
+		case "types":
+			errorsChecked = true
+			var tv TV
+			var tp *TP
+			if (c.V == "TV" && errors.As(err, &tv)) || (c.V == "TP" && errors.As(err, &tp)) {
 				return true
 			}
 		case "result":
@@ -552,10 +592,10 @@ func buildStack(stack []desc, unit time.Duration, rec *recorder) *builtStack {
 				}
 			})
 			steps = append(steps, func() {
-				applyStrConds(d.H, func(e ...error) { b.HandleErrors(e...) }, func(r string) { b.HandleResult(r) }, func(f func(string, error) bool) { b.HandleIf(f) })
+				applyStrConds(d.H, rec.alt&1 == 1, func(e ...error) { b.HandleErrors(e...) }, func(t ...any) { b.HandleErrorTypes(t...) }, func(r string) { b.HandleResult(r) }, func(f func(string, error) bool) { b.HandleIf(f) })
 			})
 			steps = append(steps, func() {
-				applyStrConds(d.A, func(e ...error) { b.AbortOnErrors(e...) }, func(r string) { b.AbortOnResult(r) }, func(f func(string, error) bool) { b.AbortIf(f) })
+				applyStrConds(d.A, rec.alt&1 == 1, func(e ...error) { b.AbortOnErrors(e...) }, func(t ...any) { b.AbortOnErrorTypes(t...) }, func(r string) { b.AbortOnResult(r) }, func(f func(string, error) bool) { b.AbortIf(f) })
 			})
 			if d.Rlf {
 				steps = append(steps, func() { b.ReturnLastFailure() })
@@ -649,18 +689,22 @@ func buildStack(stack []desc, unit time.Duration, rec *recorder) *builtStack {
 				}
 			}
 			b.WithDelay(time.Duration(c.Delay) * unit)
-			if rec.alt&1 == 1 {
-				// a delay function that defers to the configured delay (-1) for the failure that trips the breaker, and opens
-				// it for no time at all when it is handed anything else
+			if rec.alt&1 == 1 || (d.Dfn != nil && *d.Dfn >= 0) {
+				// a delay function that defers to the configured delay (-1), or asks for its own (d.Dfn), for the failure that trips
+				// the breaker, and opens it for no time at all when it is handed anything else
 				hs := d.H
+				want := time.Duration(-1)
+				if d.Dfn != nil && *d.Dfn >= 0 {
+					want = time.Duration(*d.Dfn) * unit
+				}
 				b.WithDelayFunc(func(exec failsafe.ExecutionAttempt[string]) time.Duration {
 					if strIsFailure(hs, exec.LastResult(), exec.LastError()) {
-						return -1
+						return want
 					}
 					return 0
 				})
 			}
-			applyStrConds(d.H, func(e ...error) { b.HandleErrors(e...) }, func(r string) { b.HandleResult(r) }, func(f func(string, error) bool) { b.HandleIf(f) })
+			applyStrConds(d.H, rec.alt&1 == 1, func(e ...error) { b.HandleErrors(e...) }, func(t ...any) { b.HandleErrorTypes(t...) }, func(r string) { b.HandleResult(r) }, func(f func(string, error) bool) { b.HandleIf(f) })
 			if rec.registered("OnSuccess") {
 				b.OnSuccess(func(e failsafe.ExecutionEvent[string]) { rec.attempt("OnSuccess", evLayer, e, nil) })
 			}
@@ -752,7 +796,7 @@ func buildStack(stack []desc, unit time.Duration, rec *recorder) *builtStack {
 					b = fallback.BuilderWithError[string](fe)
 				}
 			}
-			applyStrConds(d.H, func(e ...error) { b.HandleErrors(e...) }, func(r string) { b.HandleResult(r) }, func(f func(string, error) bool) { b.HandleIf(f) })
+			applyStrConds(d.H, rec.alt&1 == 1, func(e ...error) { b.HandleErrors(e...) }, func(t ...any) { b.HandleErrorTypes(t...) }, func(r string) { b.HandleResult(r) }, func(f func(string, error) bool) { b.HandleIf(f) })
 			if rec.registered("OnSuccess") {
 				b.OnSuccess(func(e failsafe.ExecutionEvent[string]) { rec.attempt("OnSuccess", evLayer, e, nil) })
 			}
@@ -823,7 +867,7 @@ func buildStack(stack []desc, unit time.Duration, rec *recorder) *builtStack {
 				})
 			}
 			b = b.WithMaxHedges(d.Maxh)
-			applyStrConds(d.C, func(e ...error) { b.CancelOnErrors(e...) }, func(r string) { b.CancelOnResult(r) }, func(f func(string, error) bool) { b.CancelIf(f) })
+			applyStrConds(d.C, rec.alt&1 == 1, func(e ...error) { b.CancelOnErrors(e...) }, func(t ...any) { b.CancelOnErrorTypes(t...) }, func(r string) { b.CancelOnResult(r) }, func(f func(string, error) bool) { b.CancelIf(f) })
 			if rec.registered("OnHedge") {
 				b.OnHedge(func(e failsafe.ExecutionEvent[string]) { rec.attempt("OnHedge", evLayer, e, nil) })
 			}
